@@ -93,7 +93,7 @@ fn site_file(loc: &str) -> String {
 }
 
 fn hash_line(stdout: &str) -> Option<String> {
-    stdout.lines().find_map(|l| l.trim().strip_prefix("HASH ").map(|s| s.to_string()))
+    stdout.lines().find_map(|l| l.find("HASH ").map(|p| l[p + 5..].trim().to_string()))
 }
 
 fn shim() -> Option<PathBuf> {
@@ -278,7 +278,7 @@ pub fn run(prop: &str, args: &Args) -> LegResult {
                     }
                 }
             }
-            if let Some(l) = so.lines().find(|l| l.starts_with("e2e-leg ")) {
+            if let Some(l) = so.lines().find_map(|l| l.find("e2e-leg ").map(|p| &l[p..])) {
                 if i == 0 {
                     println!("{l}");
                 }
